@@ -423,7 +423,9 @@ def strategy(drv="full"):
 ENUM_ALPHA = [["peer_send", 1, 5], ["peer_send", 5, 32], ["peer_send", 0, 1], ["listen", True], ["listen", False],
               ["send", 4, "listening", False], ["send", 4, "absent", False], ["send", 3, "ackpl", False], ["fill_tx", 3, 2],
               ["load_ack", 2, 1], ["read"], ["clear", True, False, False], ["clear", False, True, True], ["flush_rx"], ["flush_tx"],
-              ["irqcfg", False, True, True], ["neutral", 0]]
+              ["irqcfg", False, True, True], ["neutral", 0],
+              # the documented non-blocking flow: write(), then the application polls update() (the executor settles the air)
+              ["write", 4, False, False, "absent"], ["write", 6, False, False, "listening"]]
 ENUM_TAIL = [["update"], ["available"], ["any"], ["fifo", False, None], ["fifo", True, None], ["read"], ["update"], ["last_tx_arc"]]
 
 
